@@ -51,6 +51,11 @@ def check(case):
     m.compute_impedance_matrix()
     Z = np.array(m.Z)
     topo = build.ref_topology(case, m)
+    # README: segments should not be longer than lambda/20 (the generators use lambda/10); with longer segments the
+    # program's 2- and 4-point Gauss rules for distant pairs no longer resolve the phase along the source segment
+    why = common.segment_rule_violation(topo, 299.8 / case['f'], lo=0.0, hi=1 / 10.0, seg_r=0.0)
+    if why:
+        return Result(skipped=why)
     if len(topo.pulses) != Z.shape[0]:
         return Result(fails=[('pulse-count', 'reference has %d pulses, matrix %d' % (len(topo.pulses), Z.shape[0]))], labels=labels)
     ground = build.has_ground(case)
